@@ -811,6 +811,14 @@ func (fsm *fsm) sendNotification(conn net.Conn, msg *bgp.BGPMessage) error {
 	return err
 }
 
+// sendCollisionCease closes the connection that lost the connection collision
+// resolution the way RFC 4271 Section 6.8 prescribes: by sending a NOTIFICATION
+// with the Error Code Cease (RFC 4486 subcode "Connection Collision
+// Resolution"). sendNotification closes the connection.
+func (fsm *fsm) sendCollisionCease(conn net.Conn) error {
+	return fsm.sendNotification(conn, bgp.NewBGPNotificationMessage(bgp.BGP_ERROR_CEASE, bgp.BGP_ERROR_SUB_CONNECTION_COLLISION_RESOLUTION, nil))
+}
+
 func (fsm *fsm) start(wg *sync.WaitGroup, callback func(*fsmMsg)) {
 	ctx, cancel := context.WithCancel(context.Background())
 	fsm.h = &fsmHandler{
@@ -1543,7 +1551,7 @@ func (h *fsmHandler) opensent(ctx context.Context) (bgp.FSMState, *fsmStateReaso
 				if isDominant {
 					// close the incoming connection
 					fsm.logger.Debug("collision detected: dominant on active side, close the incoming connection")
-					fsm.conn.Close()
+					_ = fsm.sendCollisionCease(fsm.conn)
 					fsm.conn = outConn.conn
 					fsm.lock.Lock()
 					fsm.recvOpen = outConn.open
@@ -1551,7 +1559,7 @@ func (h *fsmHandler) opensent(ctx context.Context) (bgp.FSMState, *fsmStateReaso
 				} else {
 					// close the outgoing connection
 					fsm.logger.Debug("collision detected: dominant on passive side, close the outgoing connection")
-					outConn.conn.Close()
+					_ = fsm.sendCollisionCease(outConn.conn)
 				}
 			}
 
@@ -1588,11 +1596,11 @@ func (h *fsmHandler) opensent(ctx context.Context) (bgp.FSMState, *fsmStateReaso
 					if isDominant {
 						// close the incoming connection
 						fsm.logger.Debug("collision detected: dominant on active side, close the incoming connection")
-						incomingConn.Close()
+						_ = fsm.sendCollisionCease(incomingConn)
 					} else {
 						// close the outgoing connection
 						fsm.logger.Debug("collision detected: dominant on passive side, close the outgoing connection")
-						result.conn.Close()
+						_ = fsm.sendCollisionCease(result.conn)
 						fsm.conn = incomingConn
 						fsm.lock.Lock()
 						fsm.recvOpen = e.MsgData.(*bgp.BGPMessage)
